@@ -48,6 +48,9 @@ class Stats(object):
         self.candidates = 0
         self.decisions = 0
         self.model_hits = 0
+        self.xsolver_checked = 0
+        self.xsolver_agreed = 0
+        self.xsolver_timeout = 0
 
     def as_dict(self):
         return dict(self.__dict__)
@@ -105,8 +108,43 @@ def solve(constraints, want_model=True):
         return "sat", (s.model() if want_model else None)
     if r == "unsat":
         STATS.unsat += 1
+        if XCHECK_EVERY and STATS.unsat % XCHECK_EVERY == 0:
+            _second_solver(s)
         return "unsat", None
     raise Inconclusive("solver answered %s (%s) after %.1fs" % (r, s.reason_unknown(), time.time() - t0))
+
+
+XCHECK_EVERY = int(os.environ.get("SYMLAS_XCHECK_EVERY", "0"))
+XCHECK_BIN = os.environ.get("SYMLAS_XCHECK_BIN", "/usr/bin/z3")
+
+
+def _second_solver(s):
+    """re-decide an unsat query with an independent solver build (z3 4.8.12 binary): any answer
+    other than unsat (or an (error line) makes the run inconclusive"""
+    import subprocess
+    import tempfile
+
+    with tempfile.NamedTemporaryFile("w", suffix=".smt2", delete=False, dir=os.environ.get("TMPDIR", "/tmp")) as f:
+        f.write("(set-logic QF_BV)\n" + s.sexpr() + "(check-sat)\n")
+        path = f.name
+    try:
+        p = subprocess.run([XCHECK_BIN, "-T:120", path], stdout=subprocess.PIPE, stderr=subprocess.STDOUT, text=True, timeout=180)
+        out = p.stdout.strip()
+    except Exception as e:
+        out = "error: %r" % (e,)
+    finally:
+        try:
+            os.remove(path)
+        except OSError:
+            pass
+    STATS.xsolver_checked = getattr(STATS, "xsolver_checked", 0) + 1
+    if out.splitlines()[:1] == ["unsat"] and "(error" not in out:
+        STATS.xsolver_agreed = getattr(STATS, "xsolver_agreed", 0) + 1
+        return
+    if out.startswith("timeout") or out.splitlines()[:1] == ["unknown"]:
+        STATS.xsolver_timeout = getattr(STATS, "xsolver_timeout", 0) + 1
+        return
+    raise Inconclusive("second solver (%s) does not confirm an unsat verdict: %s" % (XCHECK_BIN, out[:200]))
 
 
 def slice_constraints(pc, seeds):
